@@ -350,6 +350,10 @@ def canonical_cells(ctx: Ctx) -> Dict[Tuple[str, str], Dict]:
         def pol(f: FunctionInfo, depth: int) -> bool:
             if f.kind == 'property':
                 return default_inline(f, depth)
+            if f.module.name == 'hpl.ast.properties' and f.cls is not None and f.cls.name in ('HplScope', 'HplPattern', 'HplProperty') and f.kind == 'method' \
+                    and f.name not in ('but', 'cast') and depth <= 4:
+                # a decomposition step moved onto the scope / pattern class
+                return not any(isinstance(n, (ast.For, ast.While, ast.Try, ast.With)) for n in ast.walk(f.node))
             if f.module.name != 'hpl.rewrite' or depth > 4:
                 return False
             return not any(isinstance(n, (ast.While, ast.Try, ast.With)) for n in ast.walk(f.node))
